@@ -6,7 +6,7 @@ def build(ctx):
     return ctx.compile("json_h", [ctx.verif("harness/json_h.cpp")] + [ctx.repo(s) for s in SRC])
 
 def params(tier):
-    return dict(parse_len=5, nodes=4, strip_len=8) if tier == "quick" else dict(parse_len=6, nodes=5, strip_len=10)
+    return dict(parse_len=5, nodes=4, strip_len=8, reuse=(2, 3)) if tier == "quick" else dict(parse_len=6, nodes=5, strip_len=10, reuse=(3, 3))
 
 def run(ctx):
     p = params(ctx.tier)
@@ -15,6 +15,7 @@ def run(ctx):
     ctx.run_shards(b, ["--mode", "round", "--nodes", str(p["nodes"])], label="json roundtrip")
     ctx.run_shards(b, ["--mode", "strip", "--len", str(p["strip_len"])], label="json stripComments")
     ctx.run_shards(b, ["--mode", "parse", "--len", str(p["parse_len"]), "--preflen", str(p["parse_len"] - 1)], label="json parse")
+    ctx.run_shards(b, ["--mode", "reuse", "--len", str(p["reuse"][0]), "--len2", str(p["reuse"][1])], label="json parser reuse")
     c = ctx.counters
     ev = sum(c.get(k, 0) for k in ("parse_inputs", "deep_inputs", "roundtrip_trees", "strip_inputs"))
     cov = {"evaluations": int(ev), "distinct_nontrivial": int(c.get("distinct_nontrivial", 0)),
@@ -22,11 +23,12 @@ def run(ctx):
                    "e-acute \\ud83d \\ude00 t n), each in an exactly sized heap block under ASan, error line/column checked against the line structure "
                    "(CRLF, CR, LF), and every byte prefix of every accepted document of one token less; nesting 1/10/100/1000 of arrays, objects, mixed (closed and truncated); round trip: every value tree with <= %d nodes "
                    "over null/true/false/0/-1/INT_MIN/INT_MAX/INT64_MIN/INT64_MAX, all strings of length <= 2 over {a \" \\ / LF CR TAB 0x01 0x7f e-acute emoji}, every byte 0x01..0x7f alone and between two letters, 64-bit integers at the digit-count and double-precision boundaries, "
-                   "lists and maps; stripComments: every string of <= %d symbols over { / * \" \\ LF CR a SP } against a reference state machine. "
+                   "lists and maps; stripComments: every string of <= %d symbols over { / * \" \\ LF CR a SP } against a reference state machine; "
+                   "parser reuse: every pair (first document of <= %d tokens, second of <= %d tokens) parsed by one Json::Parser object - verdict, value, error line/column/text of the second parse equal those of a fresh parser. "
                    "distinct_nontrivial counts inputs of >= 2 tokens / trees of >= 2 nodes / strip inputs containing '/'"
-                   % (p["parse_len"], p["nodes"], p["strip_len"]),
+                   % (p["parse_len"], p["nodes"], p["strip_len"], p["reuse"][0], p["reuse"][1]),
            "exhaustive": True, "bounds": p,
-           "parse_accepted": int(c.get("parse_accepted", 0)), "parse_rejected": int(c.get("parse_rejected", 0))}
+           "parse_accepted": int(c.get("parse_accepted", 0)), "parse_rejected": int(c.get("parse_rejected", 0)), "reuse_pairs": int(c.get("reuse_pairs", 0))}
     return ctx.finish("exploration", cov, ["inputs are NUL-terminated; doubles and unsigned 64-bit values are outside the round-trip statement",
                                           "Variant equality (==) decides tree equality"], tags=["C15"])
 
